@@ -214,3 +214,50 @@ def marathon(rec, rng, prop, n_texts=4200, altered_key="history/earlier-result-a
             rec.violation(prop, altered_key, "a tree handed out by parse() was altered by later calls on the parser",
                           {"text": t, "marathon": True, "summary": f"parse({t!r}) was kept by the caller; after {n_texts} further distinct texts on the same parser the kept tree "
                            f"reads {S.text_of(r) if now is not None else '<unreadable>'!r}"})
+
+
+def typed(rec, rng, texts):
+    """A text arrives one keystroke at a time (an input box that re-parses on every change): every
+    prefix is tokenized / parsed on the same parser, in order.  Decided by the monitors attached."""
+    from mathy_core.parser import ExpressionParser
+
+    for t in texts:
+        p = ExpressionParser()
+        p._vmon_history = []
+        for i in range(1, len(t) + 1):
+            pre = t[:i]
+            for f in ((p.tokenize, p.parse) if i % 2 else (p.parse, p.tokenize)):
+                try:
+                    f(pre)
+                except Exception:
+                    pass
+        rec.arm("history:typed-character-by-character")
+
+
+TYPED_TEXTS = ["4 + sgn(x)", "sgn(x) * sgnx", "2sgn(3y) - 1", "12.5x^2 + 7", "x = sgn(-4)", "(a + b)(c - d)", "3! + sgn(2)", "s + sg + sgn + sgnn", "1 000 + 2", "4x^-2.5 = y"]
+
+
+def deep_under_default_limit(rec, prop):
+    """inputs of nesting depth 0 or 1 but great LENGTH, under the interpreter's default recursion
+    limit: sums and products are parsed by loops, so such inputs are answered (a tree, or a parser
+    error for the broken ones) -- never with the interpreter's RecursionError"""
+    import sys
+    from mathy_core.parser import ExpressionParser
+
+    chain = " + ".join(["x"] * 420)
+    prod = " * ".join(["y"] * 380)
+    texts = ["sgn(" + chain, "sgn(" + prod, "2 * sgn(1 - " + chain, "(" + chain, chain + " +", "sgn(" + chain + ")", chain + " = " + prod + ")", "sgn(" + chain + " 4"]
+    old = sys.getrecursionlimit()
+    for t in texts:
+        p = ExpressionParser()
+        sys.setrecursionlimit(1000)
+        try:
+            try:
+                p.parse(t)
+            except Exception:
+                pass
+            except RecursionError:
+                pass
+        finally:
+            sys.setrecursionlimit(old)
+        rec.arm("parse:long-flat-input-under-the-default-recursion-limit")
